@@ -95,6 +95,23 @@ func VerifyFunction(p *Program, name string, opt Options) FnReport {
 		}
 		sem = make(chan struct{}, n)
 	})
+	// case split: every obligation once per case
+	if len(fc.splitCases) > 0 {
+		var exp []Oblig
+		for _, o := range fc.Obligs {
+			if o.Vacuity || o.Goal == smt.True {
+				exp = append(exp, o)
+				continue
+			}
+			for k, c := range fc.splitCases {
+				oc := o
+				oc.Guard = smt.And(o.Guard, c)
+				oc.Name = fmt.Sprintf("%s[case %d]", o.Name, k)
+				exp = append(exp, oc)
+			}
+		}
+		fc.Obligs = exp
+	}
 	rep.Results = make([]OblResult, len(fc.Obligs))
 	var wg sync.WaitGroup
 	for i, o := range fc.Obligs {
@@ -107,6 +124,54 @@ func VerifyFunction(p *Program, name string, opt Options) FnReport {
 		}(i, o)
 	}
 	wg.Wait()
+	// immutability scans for the constant tables / global invariants used
+	var scanned []string
+	for name := range fc.ctVals {
+		scanned = append(scanned, name)
+	}
+	usesInv := false
+	for _, u := range cs.UseLemmas {
+		if p.GlobalInv(u) != nil {
+			usesInv = true
+		}
+	}
+	if usesInv {
+		scanned = append(scanned, p.Spec.Immutable...)
+	}
+	sort.Strings(scanned)
+	for i, name := range scanned {
+		if i > 0 && scanned[i-1] == name {
+			continue
+		}
+		bad := p.ImmutableScan(name)
+		r := OblResult{Oblig: Oblig{Fn: name, Name: fc.Name + "/scan.immutable." + name, Kind: "scan.immutable", Where: name, Text: "no store to " + name + " (or through it) outside init"}, Status: "proved", Raw: "scan", Solver: "ssa-scan"}
+		if len(bad) > 0 {
+			r.Status = "failed"
+			r.Output = strings.Join(bad, "; ")
+		}
+		rep.Results = append(rep.Results, r)
+	}
+	for _, key := range smt.SortedKeys(fc.constFieldsUsed) {
+		bad := p.ConstFieldScan(key)
+		r := OblResult{Oblig: Oblig{Fn: name, Name: fc.Name + "/scan.constfield." + key, Kind: "scan.constfield", Where: key, Text: key + " is stored only into freshly allocated objects"}, Status: "proved", Raw: "scan", Solver: "ssa-scan"}
+		if len(bad) > 0 {
+			r.Status = "failed"
+			r.Output = strings.Join(bad, "; ")
+		}
+		rep.Results = append(rep.Results, r)
+	}
+	for _, oc := range p.Spec.OnlyCalledFrom {
+		if oc[1] != name {
+			continue
+		}
+		bad := p.OnlyCalledFromScan(oc[0], oc[1])
+		r := OblResult{Oblig: Oblig{Fn: name, Name: fc.Name + "/scan.onlycalledfrom." + oc[0], Kind: "scan.callsites", Where: oc[0], Text: oc[0] + " is read only in " + oc[1]}, Status: "proved", Raw: "scan", Solver: "ssa-scan"}
+		if len(bad) > 0 {
+			r.Status = "failed"
+			r.Output = strings.Join(bad, "; ")
+		}
+		rep.Results = append(rep.Results, r)
+	}
 	return rep
 }
 
